@@ -12,6 +12,7 @@ import sysconfig
 # frozen: exception class -> direct base (qualified by the name the package uses)
 FROZEN_EXC_BASES = {
     "ext:asyncio.CancelledError": "ext:builtins.BaseException",
+    "ext:asyncio.InvalidStateError": "ext:builtins.Exception",
     "ext:trio.Cancelled": "ext:builtins.BaseException",
     "ext:trio.RunFinishedError": "ext:builtins.RuntimeError",
     "ext:trio.ClosedResourceError": "ext:builtins.Exception",
